@@ -34,7 +34,7 @@ mutual
     | .int i, f, T, _, hT, hf => by
       cases f with
       | zero => simp [size] at hf
-      | succ f => simp only [ser, norm]; exact parse_numTok f _ T (intBytes_numTok i) hT
+      | succ f => simp only [ser, norm]; exact parse_numTok f _ T (isNumTok_intBytes i) hT
     | .num p, f, T, hw, hT, hf => by
       cases f with
       | zero => simp [size] at hf
@@ -58,7 +58,7 @@ mutual
         simp only [wf] at hw
         simp only [ser, norm, List.cons_append]
         rw [parseVal.eq_def]
-        simp only [skipWs_cons_of_not_ws _ (show isWS 0x2F = false by decide), if_true, spanReg_append s T hw hT.nr]
+        simp only [skipWs_cons_of_not_ws _ (show isWS 0x2F = false by decide), if_true, spanReg_append s T (nameOK_reg hw) hT.nr, nameOK_unesc hw]
     | .arr xs, f, T, hw, hT, hf => by
       cases f with
       | zero => simp [size] at hf
@@ -142,7 +142,7 @@ mutual
         simp only [kvBody, normKvs]
         rw [parseKvs.eq_def]
         simp only [skipWs_cons_of_not_ws _ (show isWS 0x2F = false by decide)]
-        simp only [show (0x2F : UInt8) ≠ 0x3E by decide, if_false, if_true, spanReg_append k _ hw.1.1 hnr, hv, h2]
+        simp only [show (0x2F : UInt8) ≠ 0x3E by decide, if_false, if_true, spanReg_append k _ (nameOK_reg hw.1.1) hnr, nameOK_unesc hw.1.1, hv, h2]
 end
 
 end C13L
